@@ -6,7 +6,9 @@ package sim
 import (
 	"fmt"
 	"hash/fnv"
+	"runtime"
 	"sort"
+	"strings"
 	"sync"
 
 	"kgsim/tape"
@@ -181,4 +183,30 @@ func SortedKeys[V any](m map[string]V) []string {
 	}
 	sort.Strings(ks)
 	return ks
+}
+
+// Goroutines returns the stacks of all goroutines whose stack mentions any of
+// the given substrings (debug aid for "never finished" violations).
+func Goroutines(match ...string) string {
+	buf := make([]byte, 4<<20)
+	n := runtime.Stack(buf, true)
+	var out []string
+	for _, g := range strings.Split(string(buf[:n]), "\n\n") {
+		for _, m := range match {
+			if strings.Contains(g, m) {
+				var keep []string
+				for _, l := range strings.Split(g, "\n") {
+					if !strings.HasPrefix(l, "\t") {
+						keep = append(keep, l)
+					}
+				}
+				if len(keep) > 14 {
+					keep = keep[:14]
+				}
+				out = append(out, strings.Join(keep, "\n"))
+				break
+			}
+		}
+	}
+	return strings.Join(out, "\n\n")
 }
